@@ -6,32 +6,644 @@ import AnnetModel.Spec.Offside
 namespace Annet.Offside.Lemmas
 open Annet.Offside Annet.Offside.Spec
 
-theorem impl_eq_spec (items : List Item) : stacks items = Spec.stacks items := by
-  sorry
+/-! ### Unfolding lemmas phrased with `Except.map` -/
+
+theorem runItems_text_none {k : Nat} {s : String} {rest : List Item} {st : St}
+    {stack : List String} {n : Nat} (h : stepText st k = none) :
+    runItems (.text k s :: rest) st stack n = .error n := by
+  simp only [runItems, h]
+
+theorem runItems_text_some {k : Nat} {s : String} {rest : List Item} {st st' : St}
+    {depth : Nat} {stack : List String} {n : Nat} (h : stepText st k = some (st', depth)) :
+    runItems (.text k s :: rest) st stack n
+      = (runItems rest st' (restack stack depth s) (n + 1)).map (restack stack depth s :: ·) := by
+  simp only [runItems, h]
+  cases runItems rest st' (restack stack depth s) (n + 1) <;> rfl
+
+theorem run_text_false {k : Nat} {s : String} {rest : List Item} {prev : List (Nat × String)}
+    {n : Nat} (h : consistent prev k = false) :
+    Spec.run (.text k s :: rest) prev n = .error n := by
+  simp [Spec.run, h]
+
+theorem run_text_true {k : Nat} {s : String} {rest : List Item} {prev : List (Nat × String)}
+    {n : Nat} (h : consistent prev k = true) :
+    Spec.run (.text k s :: rest) prev n
+      = (Spec.run rest ((k, s) :: prev) (n + 1)).map (path prev k s :: ·) := by
+  simp only [Spec.run, h, if_true]
+  cases Spec.run rest ((k, s) :: prev) (n + 1) <;> rfl
+
+theorem toOption_map {ε α β : Type} (f : α → β) (r : Except ε α) :
+    (r.map f).toOption = r.toOption.map f := by
+  cases r <;> rfl
+
+/-! ### Spec-side facts about `chain` -/
+
+theorem chain_dropWhile (l : List (Nat × String)) (b b' : Nat) (h : b ≤ b') :
+    chain l b = (chain l b').dropWhile (fun p => decide (b ≤ p.1)) := by
+  induction l generalizing b b' with
+  | nil => simp [chain]
+  | cons p rest ih =>
+    obtain ⟨k, s⟩ := p
+    simp only [chain]
+    by_cases h1 : k < b
+    · have h2 : k < b' := by omega
+      have h3 : ¬ b ≤ k := by omega
+      simp [h1, h2, h3]
+    · by_cases h2 : k < b'
+      · have h3 : b ≤ k := by omega
+        simp only [h1, h2, if_true, if_false, List.dropWhile_cons, h3, decide_true]
+        exact ih b k h3
+      · simp only [h1, h2, if_false]
+        exact ih b b' h
+
+theorem chain_eq_openChain_dropWhile (k0 : Nat) (s0 : String) (rest : List (Nat × String))
+    (k : Nat) :
+    chain ((k0, s0) :: rest) k
+      = (openChain ((k0, s0) :: rest)).dropWhile (fun p => decide (k ≤ p.1)) := by
+  simp only [chain, openChain]
+  by_cases h : k0 < k
+  · have h3 : ¬ k ≤ k0 := by omega
+    simp [h, h3]
+  · have h3 : k ≤ k0 := by omega
+    simp only [h, if_false, List.dropWhile_cons, h3, decide_true, if_true]
+    exact chain_dropWhile rest k k0 h3
+
+/-! ### The column invariant -/
+
+/-- `Cols g indents curr cs`: `cs` are the absolute columns of the open blocks
+(innermost first), `indents` the differences between consecutive columns,
+`curr` the innermost column relative to the section's base column `g`. -/
+def Cols (g : Nat) : List Nat → Int → List Nat → Prop
+  | [], curr, cs => curr = 0 ∧ cs = [g]
+  | d :: ds, curr, cs =>
+    ∃ c cs', cs = c :: cs' ∧ 0 < d ∧ (c : Int) = g + curr ∧ Cols g ds (curr - d) cs'
+
+theorem Cols_length {g : Nat} {inds : List Nat} {curr : Int} {cs : List Nat}
+    (h : Cols g inds curr cs) : cs.length = inds.length + 1 := by
+  induction inds generalizing curr cs with
+  | nil => obtain ⟨_, rfl⟩ := h; rfl
+  | cons d ds ih =>
+    obtain ⟨c, cs', rfl, _, _, h'⟩ := h
+    simp [ih h']
+
+theorem Cols_head {g : Nat} {inds : List Nat} {curr : Int} {cs : List Nat}
+    (h : Cols g inds curr cs) : ∃ c cs', cs = c :: cs' ∧ (c : Int) = g + curr := by
+  cases inds with
+  | nil => obtain ⟨h0, rfl⟩ := h; exact ⟨g, [], rfl, by omega⟩
+  | cons d ds =>
+    obtain ⟨c, cs', rfl, _, hc, _⟩ := h
+    exact ⟨c, cs', rfl, hc⟩
+
+theorem Cols_le {g : Nat} {inds : List Nat} {curr : Int} {cs : List Nat}
+    (h : Cols g inds curr cs) : ∀ c ∈ cs, (c : Int) ≤ g + curr := by
+  induction inds generalizing curr cs with
+  | nil =>
+    obtain ⟨h0, rfl⟩ := h
+    intro c hc
+    simp at hc
+    omega
+  | cons d ds ih =>
+    obtain ⟨c, cs', rfl, hd, hc, h'⟩ := h
+    intro x hx
+    simp at hx
+    rcases hx with rfl | hx
+    · omega
+    · have := ih h' x hx
+      omega
+
+theorem popLoop_cols {g k : Nat} (hgk : g ≤ k) {inds : List Nat} {curr : Int} {cs : List Nat}
+    (h : Cols g inds curr cs) :
+    Cols g (popLoop ((k : Int) - (g : Int)) inds curr).1 (popLoop ((k : Int) - (g : Int)) inds curr).2
+      (cs.dropWhile (fun c => decide (k < c))) := by
+  induction inds generalizing curr cs with
+  | nil =>
+    obtain ⟨h0, rfl⟩ := h
+    have : ¬ k < g := by omega
+    simp [popLoop, Cols, h0, this]
+  | cons d ds ih =>
+    obtain ⟨c, cs', rfl, hd, hc, h'⟩ := h
+    simp only [popLoop]
+    by_cases hlt : curr > (k : Int) - (g : Int)
+    · have : k < c := by omega
+      simp only [hlt, if_true, List.dropWhile_cons, this, decide_true]
+      exact ih h'
+    · have : ¬ k < c := by omega
+      simp only [hlt, if_false, List.dropWhile_cons, this, decide_false]
+      exact ⟨c, cs', rfl, hd, hc, h'⟩
+
+/-! ### Small list facts -/
+
+theorem dropWhile_dropWhile_of_imp {α : Type} (p q : α → Bool) (hpq : ∀ x, p x = true → q x = true)
+    (l : List α) : (l.dropWhile p).dropWhile q = l.dropWhile q := by
+  induction l with
+  | nil => rfl
+  | cons a l ih =>
+    by_cases hp : p a = true
+    · simp [hp, hpq a hp, ih]
+    · simp [List.dropWhile_cons, hp]
+
+theorem mem_dropWhile_of_false {α : Type} (p : α → Bool) (l : List α) (x : α)
+    (hx : x ∈ l) (hp : p x = false) : x ∈ l.dropWhile p := by
+  induction l with
+  | nil => cases hx
+  | cons a l ih =>
+    by_cases hpa : p a = true
+    · simp only [List.dropWhile_cons, hpa, if_true]
+      rcases List.mem_cons.mp hx with rfl | h
+      · simp [hp] at hpa
+      · exact ih h
+    · simp only [List.dropWhile_cons, hpa]
+      exact hx
+
+theorem dropWhile_head_false {α : Type} (p : α → Bool) (l : List α) (c : α) (t : List α)
+    (h : l.dropWhile p = c :: t) : p c = false := by
+  induction l with
+  | nil => cases h
+  | cons a l ih =>
+    by_cases hpa : p a = true
+    · simp only [List.dropWhile_cons, hpa, if_true] at h
+      exact ih h
+    · simp only [List.dropWhile_cons, hpa] at h
+      injection h with h1 h2
+      subst h1
+      simpa using hpa
+
+theorem Cols_tail_dropWhile {g : Nat} {inds : List Nat} {curr : Int} {c : Nat} {cs' : List Nat}
+    (h : Cols g inds curr (c :: cs')) :
+    cs'.dropWhile (fun x => decide (c ≤ x)) = cs' := by
+  cases inds with
+  | nil =>
+    obtain ⟨_, h2⟩ := h
+    simp at h2
+    simp [h2.2]
+  | cons d ds =>
+    obtain ⟨c1, cs1, h1, hd, hc, h'⟩ := h
+    simp at h1
+    obtain ⟨rfl, rfl⟩ := h1
+    obtain ⟨c2, cs2, rfl, hc2⟩ := Cols_head h'
+    have : ¬ c ≤ c2 := by omega
+    simp [this]
+
+theorem pop_cols {g k : Nat} {inds' : List Nat} {curr' : Int} {cs : List Nat}
+    (h' : Cols g inds' curr' (cs.dropWhile (fun c => decide (k < c))))
+    (hk : (g : Int) + curr' = k) :
+    Cols g inds' curr' (k :: cs.dropWhile (fun c => decide (k ≤ c))) := by
+  obtain ⟨c, cs', hcs, hc⟩ := Cols_head h'
+  have hck : c = k := by omega
+  subst hck
+  have e : cs.dropWhile (fun x => decide (c ≤ x)) = cs' := by
+    rw [← dropWhile_dropWhile_of_imp (fun x => decide (c < x)) (fun x => decide (c ≤ x))
+      (by intro x hx; simp at hx ⊢; omega) cs, hcs]
+    rw [hcs] at h'
+    simp only [List.dropWhile_cons, Nat.le_refl, decide_true, if_true]
+    exact Cols_tail_dropWhile h'
+  rw [e, ← hcs]
+  exact h'
+
+theorem restack_eq (stack : List String) (depth : Nat) (s : String) :
+    restack stack depth s = stack.take depth ++ [s] := by
+  unfold restack
+  simp only
+  split
+  · rw [List.take_of_length_le (by omega)]
+  · split
+    · rename_i h
+      have : depth = stack.length - 1 := by simp at h; omega
+      rw [List.dropLast_eq_take, this]
+    · simp
+
+/-! ### The simulation invariant -/
+
+def Inv (prev : List (Nat × String)) (st : St) (stack : List String) : Prop :=
+  match prev with
+  | [] => st = St.init
+  | _ :: _ => ∃ g gs, prev.getLast? = some (g, gs) ∧ st.g = some g ∧
+      stack = ((openChain prev).map (·.2)).reverse ∧
+      Cols g st.indents st.curr ((openChain prev).map (·.1))
+
+theorem consistent_cons {k0 : Nat} {s0 : String} {rest : List (Nat × String)} {g : Nat}
+    {gs : String} (k : Nat) (h : ((k0, s0) :: rest).getLast? = some (g, gs)) :
+    consistent ((k0, s0) :: rest) k
+      = (decide (g ≤ k) && (decide (k0 ≤ k) ||
+          (openChain ((k0, s0) :: rest)).any (fun p => p.1 == k))) := by
+  simp only [consistent, h]
+
+theorem stepText_lt {inds : List Nat} {curr : Int} {g k : Nat} (h : k < g) :
+    stepText ⟨inds, curr, some g⟩ k = none := by
+  have : (k : Int) - (g : Int) < 0 := by omega
+  simp [stepText, this]
+
+theorem stepText_push {inds : List Nat} {curr : Int} {g k : Nat} (h1 : g ≤ k)
+    (h2 : curr < (k : Int) - (g : Int)) :
+    stepText ⟨inds, curr, some g⟩ k
+      = some (⟨((k : Int) - (g : Int) - curr).toNat :: inds, (k : Int) - (g : Int), some g⟩,
+          inds.length + 1) := by
+  have h0 : ¬ (k : Int) - (g : Int) < 0 := by omega
+  simp [stepText, h0, h2]
+
+theorem stepText_same {inds : List Nat} {curr : Int} {g k : Nat} (h1 : g ≤ k)
+    (h2 : curr = (k : Int) - (g : Int)) :
+    stepText ⟨inds, curr, some g⟩ k = some (⟨inds, curr, some g⟩, inds.length) := by
+  have h0 : ¬ (k : Int) - (g : Int) < 0 := by omega
+  subst h2
+  simp [stepText, h0]
+
+theorem stepText_pop {inds : List Nat} {curr : Int} {g k : Nat} (h1 : g ≤ k)
+    (h2 : (k : Int) - (g : Int) < curr) :
+    stepText ⟨inds, curr, some g⟩ k
+      = if (popLoop ((k : Int) - (g : Int)) inds curr).2 = (k : Int) - (g : Int) then
+          some (⟨(popLoop ((k : Int) - (g : Int)) inds curr).1,
+                 (popLoop ((k : Int) - (g : Int)) inds curr).2, some g⟩,
+                (popLoop ((k : Int) - (g : Int)) inds curr).1.length)
+        else none := by
+  have h0 : ¬ (k : Int) - (g : Int) < 0 := by omega
+  have h3 : ¬ (k : Int) - (g : Int) > curr := by omega
+  simp only [stepText, Option.getD_some, h0, h3, h2, if_true, if_false]
+  by_cases h : (popLoop ((k : Int) - (g : Int)) inds curr).2 = (k : Int) - (g : Int)
+  · simp [h]
+  · simp [h]
+
+theorem step_finish {k0 : Nat} {s0 : String} {rest : List (Nat × String)} {g : Nat} {gs : String}
+    (hlast : ((k0, s0) :: rest).getLast? = some (g, gs)) {stack : List String}
+    (hstack : stack = ((openChain ((k0, s0) :: rest)).map (·.2)).reverse)
+    {inds' : List Nat} {curr' : Int} (k : Nat) (s : String)
+    (hcols : Cols g inds' curr' (k :: (chain ((k0, s0) :: rest) k).map (·.1))) :
+    restack stack inds'.length s = path ((k0, s0) :: rest) k s ∧
+      Inv ((k, s) :: (k0, s0) :: rest) ⟨inds', curr', some g⟩ (path ((k0, s0) :: rest) k s) := by
+  have hlen : (chain ((k0, s0) :: rest) k).length = inds'.length := by
+    have := Cols_length hcols
+    simpa using this
+  have hsuf : chain ((k0, s0) :: rest) k <:+ openChain ((k0, s0) :: rest) := by
+    rw [chain_eq_openChain_dropWhile]
+    exact List.dropWhile_suffix _
+  obtain ⟨T, hT⟩ := hsuf
+  constructor
+  · rw [restack_eq, hstack, ← hT, ← hlen]
+    simp [path]
+  · refine ⟨g, gs, ?_, rfl, ?_, ?_⟩
+    · rw [List.getLast?_cons_cons]; exact hlast
+    · simp [path, openChain]
+    · simpa [openChain] using hcols
+
+theorem step_spec {prev : List (Nat × String)} {st : St} {stack : List String} (k : Nat)
+    (s : String) (h : Inv prev st stack) :
+    (stepText st k = none ∧ consistent prev k = false) ∨
+    (∃ st' depth, stepText st k = some (st', depth) ∧ consistent prev k = true ∧
+       restack stack depth s = path prev k s ∧ Inv ((k, s) :: prev) st' (path prev k s)) := by
+  cases prev with
+  | nil =>
+    have h' : st = St.init := h
+    subst h'
+    right
+    refine ⟨⟨[], 0, some k⟩, 0, ?_, rfl, ?_, ?_⟩
+    · simp [stepText, St.init]
+    · simp [restack_eq, path, chain]
+    · exact ⟨k, s, rfl, rfl, by simp [path, chain, openChain], by simp [openChain, chain, Cols]⟩
+  | cons p rest =>
+    obtain ⟨k0, s0⟩ := p
+    obtain ⟨inds, curr, og⟩ := st
+    obtain ⟨g, gs, hlast, hg, hstack, hcols⟩ := h
+    simp only at hg hcols
+    subst hg
+    obtain ⟨c, cs', hcs, hc⟩ := Cols_head hcols
+    simp only [openChain, List.map_cons, List.cons.injEq] at hcs
+    obtain ⟨rfl, -⟩ := hcs
+    rw [consistent_cons k hlast]
+    by_cases h1 : k < g
+    · left
+      exact ⟨stepText_lt h1, by simp; omega⟩
+    have h1' : g ≤ k := by omega
+    by_cases h2 : k0 < k
+    · -- indent
+      right
+      have hchain : chain ((k0, s0) :: rest) k = openChain ((k0, s0) :: rest) := by
+        simp [chain, openChain, h2]
+      have hc' : Cols g (((k : Int) - (g : Int) - curr).toNat :: inds) ((k : Int) - (g : Int))
+          (k :: (chain ((k0, s0) :: rest) k).map (·.1)) := by
+        rw [hchain]
+        refine ⟨k, _, rfl, by omega, by omega, ?_⟩
+        have e : (k : Int) - (g : Int) - (((k : Int) - (g : Int) - curr).toNat : Int) = curr := by
+          omega
+        rw [e]
+        exact hcols
+      obtain ⟨hr, hi⟩ := step_finish hlast hstack k s hc'
+      refine ⟨_, _, stepText_push h1' (by omega), ?_, hr, hi⟩
+      have : k0 ≤ k := by omega
+      simp [h1', this]
+    by_cases h3 : k0 = k
+    · -- same level
+      right
+      subst h3
+      have hchain : chain ((k0, s0) :: rest) k0 = chain rest k0 := by
+        simp [chain]
+      have hc' : Cols g inds curr (k0 :: (chain ((k0, s0) :: rest) k0).map (·.1)) := by
+        rw [hchain]
+        simpa [openChain] using hcols
+      obtain ⟨hr, hi⟩ := step_finish hlast hstack k0 s hc'
+      refine ⟨_, _, stepText_same h1' (by omega), ?_, hr, hi⟩
+      simp [h1']
+    · -- dedent
+      have h4 : k < k0 := by omega
+      have hpop := popLoop_cols h1' hcols
+      rw [stepText_pop h1' (by omega)]
+      by_cases h5 : (popLoop ((k : Int) - (g : Int)) inds curr).2 = (k : Int) - (g : Int)
+      · have hc' : Cols g (popLoop ((k : Int) - (g : Int)) inds curr).1
+            (popLoop ((k : Int) - (g : Int)) inds curr).2
+            (k :: (chain ((k0, s0) :: rest) k).map (·.1)) := by
+          rw [chain_eq_openChain_dropWhile]
+          have := pop_cols hpop (by omega)
+          rw [List.dropWhile_map] at this
+          exact this
+        obtain ⟨hr, hi⟩ := step_finish hlast hstack k s hc'
+        rw [if_pos h5]
+        right
+        refine ⟨_, _, rfl, ?_, hr, hi⟩
+        obtain ⟨c, cs'', hcs, hck⟩ := Cols_head hpop
+        have hck' : c = k := by omega
+        subst hck'
+        have hmem : c ∈ (openChain ((k0, s0) :: rest)).map (·.1) := by
+          apply (List.dropWhile_suffix (fun x => decide (c < x))).subset
+          rw [hcs]
+          exact List.mem_cons_self
+        obtain ⟨p, hp, hpc⟩ := List.mem_map.mp hmem
+        have hany : (openChain ((k0, s0) :: rest)).any (fun p => p.1 == c) = true :=
+          List.any_eq_true.mpr ⟨p, hp, by simpa using hpc⟩
+        simp [h1', hany]
+      · rw [if_neg h5]
+        left
+        refine ⟨rfl, ?_⟩
+        have hnk : ¬ k0 ≤ k := by omega
+        have hany : (openChain ((k0, s0) :: rest)).any (fun p => p.1 == k) = false := by
+          apply Bool.eq_false_iff.mpr
+          intro hany
+          obtain ⟨p, hp, hpk⟩ := List.any_eq_true.mp hany
+          have hpk' : p.1 = k := by simpa using hpk
+          have hmem : k ∈ (openChain ((k0, s0) :: rest)).map (·.1) :=
+            List.mem_map.mpr ⟨p, hp, hpk'⟩
+          have hmem' := mem_dropWhile_of_false (fun x => decide (k < x)) _ k hmem (by simp)
+          have hle := Cols_le hpop k hmem'
+          obtain ⟨c, cs'', hcs, hck⟩ := Cols_head hpop
+          have hf := dropWhile_head_false _ _ _ _ hcs
+          simp at hf
+          omega
+        simp [hnk, hany]
+
+theorem run_eq (items : List Item) (prev : List (Nat × String)) (st : St) (stack : List String)
+    (n : Nat) (h : Inv prev st stack) : runItems items st stack n = Spec.run items prev n := by
+  induction items generalizing prev st stack n with
+  | nil => simp [runItems, Spec.run]
+  | cons it rest ih =>
+    cases it with
+    | blank => simpa [runItems, Spec.run] using ih prev st stack (n + 1) h
+    | sectionEnd =>
+      simpa [runItems, Spec.run] using ih [] St.init stack (n + 1) rfl
+    | text k s =>
+      rcases step_spec k s h with ⟨h1, h2⟩ | ⟨st', depth, h1, h2, h3, h4⟩
+      · rw [runItems_text_none h1, run_text_false h2]
+      · rw [runItems_text_some h1, run_text_true h2, h3, ih _ _ _ _ h4]
+
+theorem impl_eq_spec (items : List Item) : stacks items = Spec.stacks items :=
+  run_eq items [] St.init [] 1 rfl
 
 theorem chain_nearest (prev : List (Nat × String)) (k j : Nat) (t : String)
     (anc : List (Nat × String)) (h : chain prev k = (j, t) :: anc) :
     ∃ pre post, prev = pre ++ (j, t) :: post ∧ (∀ p ∈ pre, k ≤ p.1) ∧ j < k ∧
       anc = chain post j := by
-  sorry
+  induction prev with
+  | nil => simp [chain] at h
+  | cons p rest ih =>
+    obtain ⟨k', s'⟩ := p
+    simp only [chain] at h
+    by_cases hk : k' < k
+    · simp only [hk, if_true] at h
+      injection h with h1 h2
+      injection h1 with h3 h4
+      subst h3; subst h4
+      exact ⟨[], rest, rfl, by simp, hk, h2.symm⟩
+    · simp only [hk, if_false] at h
+      obtain ⟨pre, post, hp, hall, hj, hanc⟩ := ih h
+      refine ⟨(k', s') :: pre, post, by simp [hp], ?_, hj, hanc⟩
+      intro p hp
+      simp at hp
+      rcases hp with rfl | hp
+      · simp; omega
+      · exact hall p hp
+
+/-! ### Width independence -/
+
+theorem mono_lt_iff {f : Nat → Nat} (hf : ∀ a b, a < b → f a < f b) (a b : Nat) :
+    f a < f b ↔ a < b := by
+  constructor
+  · intro h
+    by_cases hab : a < b
+    · exact hab
+    · rcases Nat.lt_or_eq_of_le (Nat.le_of_not_lt hab) with h' | h'
+      · have := hf b a h'; omega
+      · subst h'; omega
+  · exact hf a b
+
+theorem mono_le_iff {f : Nat → Nat} (hf : ∀ a b, a < b → f a < f b) (a b : Nat) :
+    f a ≤ f b ↔ a ≤ b := by
+  have := mono_lt_iff hf b a
+  omega
+
+theorem mono_eq_iff {f : Nat → Nat} (hf : ∀ a b, a < b → f a < f b) (a b : Nat) :
+    f a = f b ↔ a = b := by
+  have h1 := mono_le_iff hf a b
+  have h2 := mono_le_iff hf b a
+  omega
+
+/-- relabel the indents of a list of preceding lines -/
+def mapPrev (f : Nat → Nat) (l : List (Nat × String)) : List (Nat × String) :=
+  l.map (fun p => (f p.1, p.2))
+
+theorem chain_mapPrev {f : Nat → Nat} (hf : ∀ a b, a < b → f a < f b)
+    (l : List (Nat × String)) (b : Nat) :
+    chain (mapPrev f l) (f b) = mapPrev f (chain l b) := by
+  induction l generalizing b with
+  | nil => simp [mapPrev, chain]
+  | cons p rest ih =>
+    obtain ⟨k, s⟩ := p
+    have ih' := ih
+    simp only [mapPrev] at ih' ⊢
+    simp only [List.map_cons, chain, mono_lt_iff hf]
+    by_cases h : k < b
+    · simp [h, ih' k]
+    · simp [h, ih' b]
+
+theorem openChain_mapPrev {f : Nat → Nat} (hf : ∀ a b, a < b → f a < f b)
+    (l : List (Nat × String)) :
+    openChain (mapPrev f l) = mapPrev f (openChain l) := by
+  cases l with
+  | nil => simp [mapPrev, openChain]
+  | cons p rest =>
+    obtain ⟨k, s⟩ := p
+    have := chain_mapPrev hf rest k
+    simp only [mapPrev] at this ⊢
+    simp [openChain, this]
+
+theorem consistent_mapPrev {f : Nat → Nat} (hf : ∀ a b, a < b → f a < f b)
+    (l : List (Nat × String)) (k : Nat) :
+    consistent (mapPrev f l) (f k) = consistent l k := by
+  cases l with
+  | nil => simp [mapPrev, consistent]
+  | cons p rest =>
+    obtain ⟨k0, s0⟩ := p
+    have hoc := openChain_mapPrev hf ((k0, s0) :: rest)
+    have hlast : (mapPrev f ((k0, s0) :: rest)).getLast?
+        = (((k0, s0) :: rest).getLast?).map (fun p => (f p.1, p.2)) := by
+      unfold mapPrev
+      exact List.getLast?_map ..
+    have hcons : mapPrev f ((k0, s0) :: rest) = (f k0, s0) :: mapPrev f rest := by
+      simp [mapPrev]
+    rw [hcons] at hoc hlast
+    simp only [hcons, consistent, hoc, hlast]
+    congr 1
+    · cases ((k0, s0) :: rest).getLast? with
+      | none => rfl
+      | some q => simp [mono_le_iff hf]
+    · congr 1
+      · simp [mono_le_iff hf]
+      · simp only [mapPrev, List.any_map]
+        congr 1
+        funext x
+        rw [Bool.eq_iff_iff]
+        simp [mono_eq_iff hf]
+
+theorem path_mapPrev {f : Nat → Nat} (hf : ∀ a b, a < b → f a < f b)
+    (l : List (Nat × String)) (k : Nat) (s : String) :
+    path (mapPrev f l) (f k) s = path l k s := by
+  unfold path
+  rw [chain_mapPrev hf]
+  simp [mapPrev, Function.comp_def]
+
+theorem run_mapIndent {f : Nat → Nat} (hf : ∀ a b, a < b → f a < f b)
+    (items : List Item) (prev : List (Nat × String)) (n : Nat) :
+    Spec.run (items.map (mapIndent f)) (mapPrev f prev) n = Spec.run items prev n := by
+  induction items generalizing prev n with
+  | nil => simp [Spec.run]
+  | cons it rest ih =>
+    cases it with
+    | blank => simpa [mapIndent, Spec.run] using ih prev (n + 1)
+    | sectionEnd => simpa [mapIndent, Spec.run, mapPrev] using ih [] (n + 1)
+    | text k s =>
+      have ih' := ih ((k, s) :: prev) (n + 1)
+      have hcons : mapPrev f ((k, s) :: prev) = (f k, s) :: mapPrev f prev := by
+        simp [mapPrev]
+      rw [hcons] at ih'
+      simp only [List.map_cons, mapIndent, Spec.run, consistent_mapPrev hf, path_mapPrev hf, ih']
 
 theorem spec_width_independent (f : Nat → Nat) (hf : ∀ a b, a < b → f a < f b)
     (items : List Item) :
     Spec.stacks (items.map (mapIndent f)) = Spec.stacks items := by
-  sorry
+  have := run_mapIndent hf items [] 1
+  simpa [Spec.stacks, mapPrev] using this
+
+/-! ### Blank lines -/
+
+theorem runItems_blank_ignored (items : List Item) (st : St) (stack : List String) (n m : Nat) :
+    (runItems (items.filter (· ≠ .blank)) st stack n).toOption
+      = (runItems items st stack m).toOption := by
+  induction items generalizing st stack n m with
+  | nil => simp [runItems]
+  | cons it rest ih =>
+    cases it with
+    | blank => simpa [runItems] using ih st stack n (m + 1)
+    | sectionEnd => simpa [runItems] using ih St.init stack (n + 1) (m + 1)
+    | text k s =>
+      have hne : (Item.text k s ≠ Item.blank) := by intro h; cases h
+      have hd : decide (Item.text k s ≠ Item.blank) = true := decide_eq_true hne
+      rw [List.filter_cons, if_pos hd]
+      cases hst : stepText st k with
+      | none => rw [runItems_text_none hst, runItems_text_none hst]; rfl
+      | some r =>
+        obtain ⟨st', depth⟩ := r
+        rw [runItems_text_some hst, runItems_text_some hst, toOption_map, toOption_map,
+          ih st' (restack stack depth s) (n + 1) (m + 1)]
 
 theorem blank_ignored (items : List Item) :
     (stacks (items.filter (· ≠ .blank))).toOption = (stacks items).toOption := by
-  sorry
+  exact runItems_blank_ignored items St.init [] 1 1
+
+/-! ### Idempotence of `insertPath` -/
 
 theorem insertPath_idem (p : List String) (t : Cfg) :
     Cfg.insertPath p (Cfg.insertPath p t) = Cfg.insertPath p t := by
-  sorry
+  induction p generalizing t with
+  | nil => cases t; simp [Cfg.insertPath]
+  | cons k rest ih =>
+    obtain ⟨ks⟩ := t
+    by_cases hk : Cfg.hasKey ks k = true
+    · have hk' : Cfg.hasKey
+          (ks.map fun p => if p.1 == k then (p.1, Cfg.insertPath rest p.2) else p) k = true := by
+        simp only [Cfg.hasKey, List.any_map] at hk ⊢
+        rw [← hk]
+        congr 1
+        funext p
+        simp only [Function.comp]
+        split <;> rfl
+      simp only [Cfg.insertPath, hk, if_true, hk', List.map_map]
+      congr 1
+      apply List.map_congr_left
+      intro p _
+      simp only [Function.comp]
+      by_cases hp : (p.1 == k) = true
+      · simp [hp, ih]
+      · simp [hp]
+    · have hk' : Cfg.hasKey (ks ++ [(k, Cfg.insertPath rest Cfg.empty)]) k = true := by
+        simp [Cfg.hasKey]
+      have hall : ∀ p ∈ ks, (p.1 == k) = false := by
+        intro p hp
+        simp only [Cfg.hasKey, List.any_eq_true, not_exists, not_and] at hk
+        simpa using hk p hp
+      have hkf : Cfg.hasKey ks k = false := by simpa using hk
+      simp only [Cfg.insertPath, hkf, Bool.false_eq_true, if_false]
+      simp only [hk', if_true, List.map_append, List.map_cons, List.map_nil]
+      have h1 : ks.map (fun p => if (p.1 == k) = true then (p.1, Cfg.insertPath rest p.2) else p)
+          = ks := by
+        calc _ = ks.map id := by
+              apply List.map_congr_left
+              intro p hp
+              simp [hall p hp]
+          _ = ks := by simp
+      rw [h1]
+      simp [ih]
+
+/-! ### Rejection -/
+
+theorem run_text_append (ls : List (Nat × String)) (rest : List Item)
+    (prev : List (Nat × String)) (n : Nat) :
+    (Spec.run (ls.map (fun p => Item.text p.1 p.2) ++ rest) prev n).toOption.isSome
+      = ((Spec.run (ls.map (fun p => Item.text p.1 p.2)) prev n).toOption.isSome &&
+         (Spec.run rest (ls.reverse ++ prev) (n + ls.length)).toOption.isSome) := by
+  induction ls generalizing prev n with
+  | nil => simp [Spec.run, Except.toOption]
+  | cons p ls ih =>
+    obtain ⟨k, s⟩ := p
+    simp only [List.map_cons, List.cons_append]
+    by_cases hc : consistent prev k = true
+    · rw [run_text_true hc, run_text_true hc, toOption_map, toOption_map, Option.isSome_map,
+        Option.isSome_map, ih ((k, s) :: prev) (n + 1)]
+      have e1 : ((k, s) :: ls).reverse ++ prev = ls.reverse ++ (k, s) :: prev := by simp
+      have e2 : n + ((k, s) :: ls).length = n + 1 + ls.length := by simp; omega
+      rw [e1, e2]
+    · have hc' : consistent prev k = false := by simpa using hc
+      rw [run_text_false hc', run_text_false hc']
+      rfl
 
 theorem reject_iff (ls : List (Nat × String)) (k : Nat) (s : String)
     (hok : (stacks (ls.map fun p => Item.text p.1 p.2)).toOption.isSome) :
     (stacks ((ls ++ [(k, s)]).map fun p => Item.text p.1 p.2)).toOption.isNone
       ↔ consistent ls.reverse k = false := by
-  sorry
+  rw [impl_eq_spec] at hok ⊢
+  have h := run_text_append ls [Item.text k s] [] 1
+  simp only [Spec.stacks] at hok ⊢
+  rw [hok] at h
+  simp only [List.map_append, List.map_cons, List.map_nil]
+  rw [← Option.not_isSome, h]
+  simp only [Spec.run, List.append_nil, Bool.true_and]
+  by_cases hc : consistent ls.reverse k = true
+  · simp [hc, Except.toOption]
+  · simp [hc, Except.toOption]
 
 end Annet.Offside.Lemmas
